@@ -45,13 +45,17 @@ _JSON_ESCAPES.update(
 MAX_ALLOC_LENGTH = 2**28
 
 
-def _alloc_length(value, what: str) -> int:
-    """ToIndex-style validation of a length argument given to a constructor."""
+def _alloc_length(value, what: str, integral: bool = False) -> int:
+    """ToIndex-style validation of a length argument given to a constructor.
+
+    Typed arrays and ArrayBuffer truncate a fractional length (ToIndex); the
+    Array constructor (integral=True) rejects it.
+    """
     n = to_number(value)
     if isinstance(n, float):
         if math.isnan(n):
             n = 0
-        elif math.isinf(n) or n != int(n):
+        elif math.isinf(n) or (integral and n != int(n)):
             raise JSRangeError(f"Invalid {what} length")
         n = int(n)
     if n < 0 or n > MAX_ALLOC_LENGTH:
@@ -449,7 +453,7 @@ class Context:
                 n = args[0]
                 if isinstance(n, float) and math.isnan(n):
                     raise JSRangeError("Invalid array length")
-                arr = JSArray(_alloc_length(n, "array"))
+                arr = JSArray(_alloc_length(n, "array", integral=True))
             else:
                 arr = JSArray()
                 for arg in args:
